@@ -116,6 +116,7 @@ static void stage_corpus(Run &R) {
     }
 }
 
+#ifndef VF_FUZZ
 int main(int argc, char **argv) {
     return std_main(argc, argv, "C07",
         {{"table", stage_table}, {"random", stage_random}, {"corpus", stage_corpus}},
@@ -132,3 +133,7 @@ int main(int argc, char **argv) {
         },
         [] { for (int m = 0; m < 4; m++) { delete ALL[m]; delete NONE[m]; } delete C; });
 }
+#else
+VF_FUZZ_TARGET("C07", [](Run &R) { C = new Consts(A); if (!T.load(R.a.datadir)) return false; for (int m = 0; m < 4; m++) { ALL[m] = new Obj(A); if (ALL[m]->configure(m, 1, C->all_bits()) != 0) return false; NONE[m] = new Obj(A); if (NONE[m]->configure(m, 1, 0) != 0) return false; } return true; },
+    [](Run &R, const uint8_t *d, size_t n) -> std::optional<Failure> { Bytes x = fuzz_bytes(d, n); if (x.empty()) return std::nullopt; R.sample("fuzz", show(x.substr(0, 80)), 4); return check_one(R, x); })
+#endif
